@@ -34,6 +34,9 @@ type Reader struct {
 	WentBack int    `json:"went_back"`
 	PerHold  []int  `json:"per_hold"`
 	FirstBad string `json:"first_bad,omitempty"`
+
+	Expansions    int `json:"expansions"`
+	BadExpansions int `json:"bad_expansions"`
 }
 
 type Scenario struct {
@@ -168,6 +171,7 @@ func main() {
 		c.CountN("source-calls-held-open:"+sc.Name, sc.Holds)
 		for ri, r := range sc.Readers {
 			c.Eval()
+			c.CountN("getresults-checked-against-reference-expansion:"+sc.Name, r.Expansions)
 			c.Case("monotone", coqCase(sc, r), map[string]interface{}{"scenario": sc.Name, "reader": ri})
 			distinct := map[int64]bool{}
 			for _, o := range r.Obs {
@@ -191,7 +195,7 @@ func main() {
 		}
 	}
 	c.Res.Exhaustive = false
-	c.Res.Rule = "race-detector build of the runner; per scenario 6 reader goroutines (Get 70%, List, GetResults, Len) for 350 ms (thorough: 4 x 1.5 s) against: Refresh in a loop with one source's FetchAll held open 30 ms; lookups of unknown providers in a loop with Fetch held open 25 ms; automatic refresh every 20 ms with FetchAll held 8 ms; refreshes + misses over 24 providers whose times advance in thirds (update map grows and is merged). Sources advance advertisement times monotonically and always report the same providers. Oracles: no provider ever missing, per-reader per-provider times never decrease, median read latency < hold/5 (reads completed inside each held-open call are reported), FetchAll calls bounded by elapsed/interval, zero race reports. One Coq case per reader (first 250 observations), accepted by monotone_versions. Directed deterministic scenarios (the scripted source signals when a call is entered and keeps it open until released): reads of a cached provider with the refresh interval elapsed and FetchAll held open 400 ms / with a miss of another provider held open in Fetch / both: Get, GetResults, List must each return within 100 ms; a Refresh held open with new data (P advanced, Q added) while two misses queue behind it, and a miss held open while a Refresh and a second miss queue: afterwards P has the newer record and P, Q, R, R2 are all listed (3 rounds each). Non-trivial = the reader saw >= 3 distinct record times"
+	c.Res.Rule = "race-detector build of the runner; per scenario 6 reader goroutines (Get 70%, List, GetResults, Len) for 350 ms (thorough: 4 x 1.5 s) against: Refresh in a loop with one source's FetchAll held open 30 ms; lookups of unknown providers in a loop with Fetch held open 25 ms; automatic refresh every 20 ms with FetchAll held 8 ms; refreshes + misses over 24 providers whose times advance in thirds (update map grows and is merged). Sources advance advertisement times monotonically and always report the same providers. Records carry chain-level and contextual extended providers that change with every version (override on/off, metadata nil / empty / equal / different, metadata lists shorter than provider lists, no extended providers at all) and every address encodes (source, entry, version). Oracles: every GetResults answer equals an independent Go reference expansion (from the text of C17) of the ONE record version its first element names; no provider ever missing, per-reader per-provider times never decrease, median read latency < hold/5 (reads completed inside each held-open call are reported), FetchAll calls bounded by elapsed/interval, zero race reports. One Coq case per reader (first 250 observations), accepted by monotone_versions. Directed deterministic scenarios (the scripted source signals when a call is entered and keeps it open until released): reads of a cached provider with the refresh interval elapsed and FetchAll held open 400 ms / with a miss of another provider held open in Fetch / both: Get, GetResults, List must each return within 100 ms; a Refresh held open with new data (P advanced, Q added) while two misses queue behind it, and a miss held open while a Refresh and a second miss queue: afterwards P has the newer record and P, Q, R, R2 are all listed (3 rounds each). Non-trivial = the reader saw >= 3 distinct record times"
 }
 
 func totalReads(sc Scenario) int {
